@@ -682,7 +682,9 @@ var danglingKinds = []string{"adv-product", "basic-product", "adv-cluster", "bas
 func TestC13(t *testing.T) {
 	rec := ev.New("C13", "three generators over the six documented files (host_rule, vip_rule, route_rule incl. BasicRule with ADVANCED_MODE targets, cluster_conf with every documented optional field, gslb, cluster_table): (a) positive sets must load through each *Load function, LoadServerDataConf and BalTable.Init; (b) sets with one or two planted dangling references (product in route/vip/default not in host table, cluster in route not in cluster_conf, gslb cluster not in cluster_table) must be rejected; (c) one structural mutation (drop / wrong type / null / huge number / duplicate key / renamed key / inserted null element) or truncation of one file, all loaders run under recover. non-trivial: (a) >=1 optional documented feature used, (b) always, (c) mutation keeps the JSON well-formed; distinct by file contents")
 	dir := workDir(t, "C13")
-	c13FixedDocs(t, rec, dir)
+	if !skipFixed {
+		c13FixedDocs(t, rec, dir)
+	}
 	rapid.Check(t, func(rt *rapid.T) {
 		switch k := rapid.IntRange(0, 9).Draw(rt, "generator"); {
 		case k <= 2:
